@@ -61,6 +61,10 @@ CHECKS = {
              text='Inductive one-frame step of the REAL animate::<T> system MIR from an arbitrary Animator pre-state (enabled, position, state symbolic; timeline / target present or not) with a symbolic frame delta over a call-level model of the ECS entry points; per execution path the solver decides every clause of the property (time conservation, forward-only states, Waiting only before the delay, Ended neither early nor more than one frame late, never Ended when infinite, terminal values when Ended, one event per state change carrying the end-of-frame state, disabled changes nothing). Counterexamples are replayed on a real bevy App with a hand-driven clock.',
              technique='symbolic execution of rustc MIR over an ECS contract model + SMT (z3); inductive step',
              note='trusted: the ECS call-level model (checks/bevy_model.py), the abstract timeline contract, as_secs_f32 uninterpreted; ' + TB),
+ 'C19': dict(level='model_checking', design='§4 C19',
+             text='System-level steps of the REAL select_animation, chain_animations and animate MIR over the ECS call-level model: select_animation from every (key, previous key, changed?) pre-state with an arbitrary Animator; chain_animations for every chain-map variant with 0..2 symbolic events (this/other entity, any state); two-frame integrated runs in both relative orders of chain and select. Per path the solver decides: the key\'s timeline is cloned, started from the current component values, the animator reset and the component unchanged in that frame; keys without a timeline stop animation and leave the component alone; re-assigning the current key restarts nothing; the chain fires exactly for Ended events of this entity whose key has an entry. The clause about other animators on the same entity is a recorded known finding (replayed on a real bevy App).',
+             technique='symbolic execution of rustc MIR over an ECS contract model + SMT (z3)',
+             note='trusted: the ECS call-level model (checks/bevy_model.py) incl. Changed<> filter and EventReader semantics, abstract timelines (L-tl); ' + TB),
  'C20': dict(level='proof', design='§4 C20',
              text='No-panic / finiteness / dev==release obligations over the encodings of the other checks: TimeScale kernel (all f32, every Repeat incl. Times(u32::MAX), overflow-checked vs wrapping semantics compared), every execution path of build + start_with + update + accessors on the structural shapes (panicking paths must be infeasible), StateAnimator::advance with the exact Duration model for every finite dt >= 0, f32 lerp finiteness for |v| <= 2^120; the documented integer-lerp overshoot panic is a recorded known finding.',
              technique='symbolic execution of rustc MIR in both overflow semantics + SMT (cvc5/z3)'),
